@@ -126,8 +126,12 @@ func c01(tier string, args []string) int {
 			if tier == "thorough" && nt.n == 3 {
 				lagSets = append(lagSets, []int{0, 1}, []int{1, 2})
 			}
+			maxStates := 400000
+			if tier == "thorough" {
+				maxStates = 2000000
+			}
 			for _, lag := range lagSets {
-				cfg := SignCfg{N: nt.n, T: nt.t, Batches: two, Proposers: []int{0}, Lag: lag, MaxStates: 400000}
+				cfg := SignCfg{N: nt.n, T: nt.t, Batches: two, Proposers: []int{0}, Lag: lag, MaxStates: maxStates}
 				o := newSigOracle(r, "C01", sw.GroupKey, sw.Round, cfg.Batches)
 				m := sw.Model(cfg, func(k *worldx.Worker, s *worldx.State) error { o.CheckState(k, s); return nil }, r.TimeUp)
 				res, err := worldx.BFS(sw.Workers, sw.Init, m, false)
